@@ -788,5 +788,507 @@ theorem trunc_bwd {cfg : SliceCfg} {D : List String} {A B : Grammar} (H : RoundH
       rw [List.append_nil]
       exact ⟨ih1.node, ih1.alts⟩
 
+/-- one round, at the level of nonterminals -/
+theorem round_nt {cfg : SliceCfg} {D : List String} {A B : Grammar} (H : RoundHyp cfg D A B)
+    {name : String} (r : Option String) (hnd : D.contains name = false) (w : List Msg) :
+    GM B (.nt name none r) w ↔ ∃ w', GM A (.nt name none r) w' ∧ project cfg w' = w := by
+  have ht : truncNode cfg D (.nt name none r) = some (.nt name none r) := by
+    simp only [truncNode, truncMsg_nt, hnd, Bool.false_eq_true, if_false]
+  constructor
+  · intro h
+    exact (trunc_bwd H h).node _ ⟨rfl, fun m hm => by simp [msgsOf] at hm⟩ ht
+  · rintro ⟨w', hw', rfl⟩
+    exact (trunc_fwd H hw' (fun m hm => by simp [msgsOf] at hm)).1 _ ht
+
+/-! ### truncation preserves the side conditions -/
+
+mutual
+theorem wf_trunc (cfg : SliceCfg) (D : List String) : ∀ (n x : Node), wf n = true →
+    truncNode cfg D n = some x → wf x = true
+  | .term t, x, _, h => by
+    simp only [truncNode, Option.some.injEq] at h
+    subst h; rfl
+  | .nt name s r, x, _, h => by
+    simp only [truncNode] at h
+    split at h
+    · cases h
+    · cases h; rfl
+  | .alt id ns, x, hw, h => by
+    rw [trunc_alt] at h
+    simp only [wf, Bool.and_eq_true] at hw
+    have hk := wfL_truncKids cfg D ns hw.2
+    unfold altResult at h
+    split at h
+    · cases h
+    · rename_i hne
+      have hne' : (!(truncKids cfg D ns).isEmpty) = true := by simpa using hne
+      split at h
+      · cases h
+        simp only [wf, Bool.and_eq_true]
+        exact ⟨hne', hk⟩
+      · cases h
+        have hrest : wf (altRest id (truncKids cfg D ns)) = true := by
+          rcases altRest_cases id (truncKids cfg D ns) with ⟨x1, hx1, he⟩ | he
+          · rw [he]
+            rw [hx1] at hk
+            simp only [wfL, Bool.and_eq_true] at hk
+            exact hk.1
+          · rw [he]
+            simp only [wf, Bool.and_eq_true]
+            exact ⟨hne', hk⟩
+        simp [wf, wfL, boundsOk, hrest]
+  | .cat id ns, x, hw, h => by
+    rw [trunc_cat] at h
+    split at h
+    · cases h
+    · cases h
+      simp only [wf] at hw ⊢
+      exact wfL_truncKids cfg D ns hw
+  | .rep id kind n1 min max, x, hw, h => by
+    rw [trunc_rep] at h
+    simp only [wf, Bool.and_eq_true] at hw
+    cases h1 : truncNode cfg D n1 with
+    | none => rw [h1] at h; cases h
+    | some y =>
+      rw [h1] at h
+      cases h
+      simp only [wf, Bool.and_eq_true]
+      exact ⟨hw.1, wf_trunc cfg D n1 y hw.2 h1⟩
+theorem wfL_truncKids (cfg : SliceCfg) (D : List String) : ∀ ns : List Node, wfL ns = true →
+    wfL (truncKids cfg D ns) = true
+  | [], _ => by simp [truncKids_nil, wfL]
+  | a :: as, hw => by
+    simp only [wfL, Bool.and_eq_true] at hw
+    cases ha : truncNode cfg D a with
+    | none =>
+      rw [truncKids_cons_none ha]
+      exact wfL_truncKids cfg D as hw.2
+    | some y =>
+      rw [truncKids_cons_some ha]
+      simp only [wfL, Bool.and_eq_true]
+      exact ⟨wf_trunc cfg D a y hw.1 ha, wfL_truncKids cfg D as hw.2⟩
+end
+
+mutual
+theorem msgsOf_trunc (cfg : SliceCfg) (D : List String) : ∀ (n x : Node) (m : Msg),
+    truncNode cfg D n = some x → m ∈ msgsOf x → m ∈ msgsOf n
+  | .term t, x, m, h, hm => by
+    simp only [truncNode, Option.some.injEq] at h
+    subst h; exact hm
+  | .nt name s r, x, m, h, hm => by
+    simp only [truncNode] at h
+    split at h
+    · cases h
+    · cases h; exact hm
+  | .alt id ns, x, m, h, hm => by
+    rw [trunc_alt] at h
+    simp only [msgsOf]
+    apply msgsOfL_truncKids cfg D ns m
+    unfold altResult at h
+    split at h
+    · cases h
+    · split at h
+      · cases h
+        simpa [msgsOf] using hm
+      · cases h
+        simp only [msgsOf, msgsOfL, List.append_nil] at hm
+        rcases altRest_cases id (truncKids cfg D ns) with ⟨x1, hx1, he⟩ | he
+        · rw [he] at hm
+          rw [hx1]
+          simp only [msgsOfL, List.append_nil]
+          exact hm
+        · rw [he] at hm
+          simpa [msgsOf] using hm
+  | .cat id ns, x, m, h, hm => by
+    rw [trunc_cat] at h
+    split at h
+    · cases h
+    · cases h
+      simp only [msgsOf] at hm ⊢
+      exact msgsOfL_truncKids cfg D ns m hm
+  | .rep id kind n1 min max, x, m, h, hm => by
+    rw [trunc_rep] at h
+    cases h1 : truncNode cfg D n1 with
+    | none => rw [h1] at h; cases h
+    | some y =>
+      rw [h1] at h
+      cases h
+      simp only [msgsOf] at hm ⊢
+      exact msgsOf_trunc cfg D n1 y m h1 hm
+theorem msgsOfL_truncKids (cfg : SliceCfg) (D : List String) : ∀ (ns : List Node) (m : Msg),
+    m ∈ msgsOfL (truncKids cfg D ns) → m ∈ msgsOfL ns
+  | [], m, hm => by simpa [truncKids_nil] using hm
+  | a :: as, m, hm => by
+    simp only [msgsOfL, List.mem_append]
+    cases ha : truncNode cfg D a with
+    | none =>
+      rw [truncKids_cons_none ha] at hm
+      exact Or.inr (msgsOfL_truncKids cfg D as m hm)
+    | some y =>
+      rw [truncKids_cons_some ha] at hm
+      simp only [msgsOfL, List.mem_append] at hm
+      rcases hm with hm | hm
+      · exact Or.inl (msgsOf_trunc cfg D a y m ha hm)
+      · exact Or.inr (msgsOfL_truncKids cfg D as m hm)
+end
+
+/-! ### rule lookup -/
+
+abbrev mkG (R : List (String × Node)) : Grammar := { rules := R }
+
+theorem rule_nil (name : String) : (mkG []).rule name = none := by
+  simp [Grammar.rule]
+
+theorem rule_cons (k : String) (b : Node) (R : List (String × Node)) (name : String) :
+    (mkG ((k, b) :: R)).rule name = if k = name then some b else (mkG R).rule name := by
+  unfold Grammar.rule
+  simp only [List.find?_cons]
+  by_cases h : k = name
+  · simp [h]
+  · have : (k == name) = false := by simpa using h
+    simp [this, h]
+
+theorem rule_append (X Y : List (String × Node)) (name : String) :
+    (mkG (X ++ Y)).rule name =
+      match (mkG X).rule name with
+      | some b => some b
+      | none => (mkG Y).rule name := by
+  induction X with
+  | nil => simp [rule_nil]
+  | cons p X ih =>
+    obtain ⟨k, b⟩ := p
+    rw [List.cons_append, rule_cons, rule_cons]
+    by_cases h : k = name
+    · simp [h]
+    · simp only [h, if_false]; exact ih
+
+theorem rule_eps_list (D : List String) (name : String) :
+    (mkG (D.map (fun d => (d, Node.eps)))).rule name = if D.contains name then some Node.eps else none := by
+  induction D with
+  | nil => simp [rule_nil]
+  | cons d D ih =>
+    rw [List.map_cons, rule_cons, ih]
+    by_cases h : d = name
+    · simp [h]
+    · have h' : ¬ name = d := fun e => h e.symm
+      simp [h, h']
+
+theorem rule_none_iff (R : List (String × Node)) (name : String) :
+    (mkG R).rule name = none ↔ name ∉ R.map (·.1) := by
+  induction R with
+  | nil => simp [rule_nil]
+  | cons p R ih =>
+    obtain ⟨k, b⟩ := p
+    rw [rule_cons]
+    by_cases h : k = name
+    · simp [h]
+    · have h' : ¬ name = k := fun e => h e.symm
+      simp [h, h', ih]
+
+/-- the grammar of a state of the loop: the remaining rules, and the names deleted in the last round as
+    ε-rules (they are still referenced) -/
+def stG (R : List (String × Node)) (D : List String) : Grammar :=
+  mkG (R ++ D.map (fun d => (d, Node.eps)))
+
+theorem stG_rule (R : List (String × Node)) (D : List String) (name : String) :
+    (stG R D).rule name =
+      match (mkG R).rule name with
+      | some b => some b
+      | none => if D.contains name then some Node.eps else none := by
+  unfold stG
+  rw [rule_append, rule_eps_list]
+
+theorem stG_nil (R : List (String × Node)) : stG R [] = mkG R := by
+  simp [stG]
+
+/-! ### one round over the rules -/
+
+theorem sliceRound_cons_some {cfg : SliceCfg} {D : List String} {name : String} {body b' : Node}
+    (rest : List (String × Node)) (h : truncNode cfg D body = some b') :
+    sliceRound cfg D ((name, body) :: rest) =
+      ((name, b') :: (sliceRound cfg D rest).1, (sliceRound cfg D rest).2) := by
+  simp only [sliceRound, h]
+
+theorem sliceRound_cons_none {cfg : SliceCfg} {D : List String} {name : String} {body : Node}
+    (rest : List (String × Node)) (h : truncNode cfg D body = none) :
+    sliceRound cfg D ((name, body) :: rest) =
+      ((sliceRound cfg D rest).1, name :: (sliceRound cfg D rest).2) := by
+  simp only [sliceRound, h]
+
+theorem nodupB_cons (k : String) (ks : List String) :
+    nodupB (k :: ks) = true ↔ k ∉ ks ∧ nodupB ks = true := by
+  simp [nodupB]
+
+structure RoundSpec (cfg : SliceCfg) (D : List String) (R : List (String × Node)) : Prop where
+  rule : ∀ name, (mkG (sliceRound cfg D R).1).rule name = ((mkG R).rule name).bind (truncNode cfg D)
+  del : ∀ name, name ∈ (sliceRound cfg D R).2 ↔
+    ∃ body, (mkG R).rule name = some body ∧ truncNode cfg D body = none
+  len : (sliceRound cfg D R).1.length + (sliceRound cfg D R).2.length = R.length
+  nodup : nodupB ((sliceRound cfg D R).1.map (·.1)) = true
+
+theorem sliceRound_spec (cfg : SliceCfg) (D : List String) : ∀ R : List (String × Node),
+    nodupB (R.map (·.1)) = true → RoundSpec cfg D R
+  | [], _ => by
+    refine ⟨?_, ?_, ?_, ?_⟩ <;> simp [sliceRound, rule_nil, nodupB]
+  | (k, b) :: rest, hnd => by
+    rw [List.map_cons, nodupB_cons] at hnd
+    have ih := sliceRound_spec cfg D rest hnd.2
+    have hk : (mkG rest).rule k = none := (rule_none_iff rest k).2 hnd.1
+    have hk1 : (mkG (sliceRound cfg D rest).1).rule k = none := by rw [ih.rule, hk]; rfl
+    have hk2 : k ∉ (sliceRound cfg D rest).2 := by
+      intro hm
+      obtain ⟨body, hb, _⟩ := (ih.del k).1 hm
+      rw [hk] at hb; cases hb
+    cases hb : truncNode cfg D b with
+    | some b' =>
+      have e := sliceRound_cons_some (name := k) rest hb
+      refine ⟨?_, ?_, ?_, ?_⟩ <;> rw [e]
+      · intro name
+        simp only [rule_cons]
+        by_cases h : k = name
+        · simp [h, hb]
+        · simp only [h, if_false]; exact ih.rule name
+      · intro name
+        simp only [rule_cons]
+        by_cases h : k = name
+        · subst h
+          simp only [if_true, Option.some.injEq, exists_eq_left', hb]
+          constructor
+          · intro hm; exact absurd hm hk2
+          · intro hc; cases hc
+        · simp only [h, if_false]; exact ih.del name
+      · simp only [List.length_cons]; have := ih.len; omega
+      · simp only [List.map_cons]
+        rw [nodupB_cons]
+        exact ⟨(rule_none_iff _ k).1 hk1, ih.nodup⟩
+    | none =>
+      have e := sliceRound_cons_none (name := k) rest hb
+      refine ⟨?_, ?_, ?_, ?_⟩ <;> rw [e]
+      · intro name
+        simp only [rule_cons]
+        by_cases h : k = name
+        · subst h
+          simp only [if_true, Option.bind_some, hb]
+          exact hk1
+        · simp only [h, if_false]; exact ih.rule name
+      · intro name
+        simp only [rule_cons, List.mem_cons]
+        by_cases h : k = name
+        · subst h
+          simp [hb]
+        · have h' : ¬ name = k := fun e => h e.symm
+          simp only [h, h', if_false, false_or]; exact ih.del name
+      · simp only [List.length_cons]; have := ih.len; omega
+      · exact ih.nodup
+
+/-! ### the loop -/
+
+/-- invariant of `slice_parties`' loop, relative to the grammar `G` that is being sliced -/
+structure Inv (cfg : SliceCfg) (G : Grammar) (R : List (String × Node)) (D : List String) : Prop where
+  nodup : nodupB (R.map (·.1)) = true
+  disj : ∀ d, d ∈ D → (mkG R).rule d = none
+  sub : ∀ name, (mkG R).rule name ≠ none → G.rule name ≠ none
+  dsub : ∀ d, d ∈ D → G.rule d ≠ none
+  good : ∀ name body, (mkG R).rule name = some body →
+    wf body = true ∧ ∀ m, m ∈ msgsOf body → G.rule m.type = none
+  sem : ∀ name r w, (mkG R).rule name ≠ none →
+    ((∃ v, GM (stG R D) (.nt name none r) v ∧ project cfg v = w) ↔
+      (∃ w', GM G (.nt name none r) w' ∧ project cfg w' = w))
+  del : ∀ name r, G.rule name ≠ none → (mkG R).rule name = none →
+    ∀ w', GM G (.nt name none r) w' → project cfg w' = []
+
+/-- what the loop establishes -/
+structure Final (cfg : SliceCfg) (G : Grammar) (R : List (String × Node)) : Prop where
+  sem : ∀ name r w, (mkG R).rule name ≠ none →
+    (GM (mkG R) (.nt name none r) w ↔ ∃ w', GM G (.nt name none r) w' ∧ project cfg w' = w)
+  del : ∀ name r, G.rule name ≠ none → (mkG R).rule name = none →
+    ∀ w', GM G (.nt name none r) w' → project cfg w' = []
+  sub : ∀ name, (mkG R).rule name ≠ none → G.rule name ≠ none
+
+theorem wf_eps : wf Node.eps = true := by simp [Node.eps, wf, wfL]
+
+theorem roundHyp_of_inv {cfg : SliceCfg} {G : Grammar} {R : List (String × Node)} {D : List String}
+    (I : Inv cfg G R D) :
+    RoundHyp cfg D (stG R D) (stG (sliceRound cfg D R).1 (sliceRound cfg D R).2) := by
+  have S := sliceRound_spec cfg D R I.nodup
+  refine ⟨?_, ?_, ?_, ?_⟩
+  · intro d hd
+    rw [stG_rule, I.disj d hd]
+    simp [hd]
+  · intro name hnd
+    have hc : D.contains name = false := by simpa using hnd
+    rw [stG_rule, stG_rule, S.rule]
+    cases hr : (mkG R).rule name with
+    | none =>
+      have : ¬ name ∈ (sliceRound cfg D R).2 := by
+        intro hm
+        obtain ⟨body, hb, _⟩ := (S.del name).1 hm
+        rw [hr] at hb; cases hb
+      simp [hnd, this]
+    | some body =>
+      cases hb : truncNode cfg D body with
+      | some b' => simp [hb]
+      | none =>
+        have : name ∈ (sliceRound cfg D R).2 := (S.del name).2 ⟨body, hr, hb⟩
+        simp [hb, this]
+  · intro name body hr
+    rw [stG_rule] at hr
+    cases hR : (mkG R).rule name with
+    | some b =>
+      rw [hR] at hr
+      cases hr
+      exact (I.good name _ hR).1
+    | none =>
+      rw [hR] at hr
+      simp only at hr
+      split at hr
+      · cases hr; exact wf_eps
+      · cases hr
+  · intro name body hr m hm
+    rw [stG_rule] at hr
+    have hbody : ∀ m, m ∈ msgsOf body → G.rule m.type = none := by
+      cases hR : (mkG R).rule name with
+      | some b =>
+        rw [hR] at hr
+        cases hr
+        exact (I.good name _ hR).2
+      | none =>
+        rw [hR] at hr
+        simp only at hr
+        split at hr
+        · cases hr; intro m hm; simp [Node.eps, msgsOf, msgsOfL] at hm
+        · cases hr
+    have hg := hbody m hm
+    rw [stG_rule]
+    have h1 : (mkG R).rule m.type = none := by
+      cases hx : (mkG R).rule m.type with
+      | none => rfl
+      | some b => exact absurd hg (I.sub m.type (by rw [hx]; simp))
+    have h2 : D.contains m.type = false := by
+      cases hx : D.contains m.type with
+      | false => rfl
+      | true => exact absurd hg (I.dsub m.type (by simpa using hx))
+    have h2' : m.type ∉ D := by simpa using h2
+    simp [h1, h2']
+
+theorem inv_step {cfg : SliceCfg} {G : Grammar} {R : List (String × Node)} {D : List String}
+    (I : Inv cfg G R D) : Inv cfg G (sliceRound cfg D R).1 (sliceRound cfg D R).2 ∧
+      (∀ name r w, (mkG (sliceRound cfg D R).1).rule name ≠ none →
+        (GM (stG (sliceRound cfg D R).1 (sliceRound cfg D R).2) (.nt name none r) w ↔
+          ∃ w', GM G (.nt name none r) w' ∧ project cfg w' = w)) := by
+  have S := sliceRound_spec cfg D R I.nodup
+  have H := roundHyp_of_inv I
+  -- a surviving rule was a rule, and is not one of the names deleted before
+  have hsurv : ∀ name, (mkG (sliceRound cfg D R).1).rule name ≠ none →
+      (mkG R).rule name ≠ none ∧ D.contains name = false := by
+    intro name hne
+    rw [S.rule] at hne
+    have h1 : (mkG R).rule name ≠ none := by
+      intro h0; rw [h0] at hne; exact hne rfl
+    refine ⟨h1, ?_⟩
+    cases hc : D.contains name with
+    | false => rfl
+    | true => exact absurd (I.disj name (by simpa using hc)) h1
+  have hsem : ∀ name r w, (mkG (sliceRound cfg D R).1).rule name ≠ none →
+      (GM (stG (sliceRound cfg D R).1 (sliceRound cfg D R).2) (.nt name none r) w ↔
+        ∃ w', GM G (.nt name none r) w' ∧ project cfg w' = w) := by
+    intro name r w hne
+    obtain ⟨h1, hc⟩ := hsurv name hne
+    rw [round_nt H r hc w]
+    exact I.sem name r w h1
+  refine ⟨⟨S.nodup, ?_, ?_, ?_, ?_, ?_, ?_⟩, hsem⟩
+  · intro d hd
+    obtain ⟨body, hb, ht⟩ := (S.del d).1 hd
+    rw [S.rule, hb]
+    exact ht
+  · intro name hne
+    exact I.sub name (hsurv name hne).1
+  · intro d hd
+    obtain ⟨body, hb, _⟩ := (S.del d).1 hd
+    exact I.sub d (by rw [hb]; simp)
+  · intro name b' hr
+    rw [S.rule] at hr
+    cases hR : (mkG R).rule name with
+    | none => rw [hR] at hr; cases hr
+    | some body =>
+      rw [hR] at hr
+      simp only [Option.bind_some] at hr
+      have hg := I.good name body hR
+      exact ⟨wf_trunc cfg D body b' hg.1 hr,
+        fun m hm => hg.2 m (msgsOf_trunc cfg D body b' m hr hm)⟩
+  · intro name r w hne
+    constructor
+    · rintro ⟨v, hv, rfl⟩
+      obtain ⟨w', hw', hp⟩ := (hsem name r v hne).1 hv
+      exact ⟨w', hw', by rw [← hp, project_idem]⟩
+    · rintro ⟨w', hw', rfl⟩
+      exact ⟨project cfg w', (hsem name r _ hne).2 ⟨w', hw', rfl⟩, project_idem cfg w'⟩
+  · intro name r hG hnone w' hw'
+    cases hR : (mkG R).rule name with
+    | none => exact I.del name r hG hR w' hw'
+    | some body =>
+      rw [S.rule, hR] at hnone
+      simp only [Option.bind_some] at hnone
+      -- every word of `name` in the state grammar is invisible
+      have hinv : ∀ v, GM (stG R D) (.nt name none r) v → project cfg v = [] := by
+        intro v hv
+        obtain ⟨body', hb', hgb⟩ := GM_nt_iff.1 hv
+        rw [stG_rule, hR] at hb'
+        cases hb'
+        exact (trunc_fwd H hgb (H.hnr name body (by rw [stG_rule, hR]))).2 hnone
+      obtain ⟨v, hv, hp⟩ := (I.sem name r (project cfg w') (by rw [hR]; simp)).2 ⟨w', hw', rfl⟩
+      rw [← hp, hinv v hv]
+
+theorem sliceLoop_spec {cfg : SliceCfg} {G : Grammar} : ∀ (fuel : Nat) (D : List String)
+    (R : List (String × Node)), R.length < fuel → Inv cfg G R D → Final cfg G (sliceLoop cfg fuel D R)
+  | 0, _, _, h, _ => by omega
+  | fuel + 1, D, R, hlen, I => by
+    have hl := (sliceRound_spec cfg D R I.nodup).len
+    obtain ⟨I', hsem⟩ := inv_step I
+    unfold sliceLoop
+    cases hs : sliceRound cfg D R with
+    | mk rs ds =>
+      rw [hs] at I' hsem hl
+      simp only at I' hsem hl ⊢
+      by_cases he : ds.isEmpty = true
+      · simp only [he, if_true]
+        have hds : ds = [] := by simpa using he
+        subst hds
+        rw [stG_nil] at hsem
+        exact ⟨hsem, I'.del, I'.sub⟩
+      · simp only [he]
+        apply sliceLoop_spec fuel ds rs _ I'
+        have hpos : 0 < ds.length := by
+          cases ds with
+          | nil => simp at he
+          | cons a as => simp
+        omega
+
+theorem inv_init {cfg : SliceCfg} {G : Grammar} (hc : sliceCert G = true) : Inv cfg G G.rules [] := by
+  unfold sliceCert at hc
+  simp only [Bool.and_eq_true, List.all_eq_true] at hc
+  have hG : mkG G.rules = G := rfl
+  refine ⟨hc.1, ?_, ?_, ?_, ?_, ?_, ?_⟩
+  · intro d hd; cases hd
+  · intro name h; exact h
+  · intro d hd; cases hd
+  · intro name body hr
+    have hm := rule_mem (G := G) hr
+    have := hc.2 (name, body) hm
+    simp only [Bool.and_eq_true, List.all_eq_true, Option.isNone_iff_eq_none] at this
+    exact ⟨this.1, fun m hm => this.2 m hm⟩
+  · intro name r w _
+    rw [stG_nil, hG]
+  · intro name r h1 h2
+    exact absurd h2 h1
+
+/-- **slicing commutes with projection**: under the certificate, the interactions of a nonterminal that
+    survives `slice_parties` are exactly the visible parts of its interactions in the grammar; the
+    interactions of a deleted nonterminal are invisible -/
+theorem sliceG_spec {cfg : SliceCfg} {G : Grammar} (hc : sliceCert G = true) :
+    Final cfg G (sliceG cfg G).rules := by
+  unfold sliceG
+  exact sliceLoop_spec (G.rules.length + 1) [] G.rules (Nat.lt_succ_self _) (inv_init hc)
+
 end Fc
 end FV
